@@ -268,6 +268,11 @@ class ParticleReleaser(Iterator[pd.DataFrame]):
             df["lat"] = Y
             df.rename(columns={"lon": "X", "lat": "Y"}, inplace=True)
 
+        # Every row needs a position
+        if df[["X", "Y"]].isna().any().any():
+            logger.critical("Particle release rows without position")
+            raise SystemExit(3)
+
         self._df = df
 
     def discretize(self) -> None:
